@@ -89,6 +89,7 @@ type Sim struct {
 	P        *ChainParams
 	Nodes    []*Node
 	Extra    []Peer
+	Detached []*Node // nodes outside the network (crash victim and twin)
 	Vals     []*Validator
 	Net      NetConfig
 	Hooks    Hooks
